@@ -1,0 +1,97 @@
+//go:build verif
+
+package device
+
+// Hooks for property C20: what can rest in a stopped peer's autodraining
+// inbound / outbound queues.  Add-only; nothing here is reachable without the tag.
+
+// VerifInjectStragglers leaves, on the queues of a peer that is NOT running,
+// exactly what a receive routine / SendStagedPackets that passed the isRunning
+// test just before Peer.Stop leaves there behind Stop's terminator: one inbound
+// container with nIn elements and one outbound container with nOut elements
+// (each element with its message buffer, all taken from the device pools,
+// containers unlocked as the crypto workers leave them).
+func (device *Device) VerifInjectStragglers(pk NoisePublicKey, nIn, nOut int) bool {
+	device.peers.RLock()
+	peer := device.peers.keyMap[pk]
+	device.peers.RUnlock()
+	if peer == nil || peer.isRunning.Load() {
+		return false
+	}
+	if nIn > 0 {
+		c := device.GetInboundElementsContainer()
+		for i := 0; i < nIn; i++ {
+			e := device.GetInboundElement()
+			e.buffer = device.GetMessageBuffer()
+			e.packet = e.buffer[:MessageTransportSize]
+			e.counter = 0
+			e.keypair = nil
+			e.endpoint = nil
+			c.elems = append(c.elems, e)
+		}
+		peer.queue.inbound.c <- c
+	}
+	if nOut > 0 {
+		c := device.GetOutboundElementsContainer()
+		for i := 0; i < nOut; i++ {
+			e := device.NewOutboundElement()
+			e.packet = e.buffer[:MessageTransportSize]
+			e.peer = peer
+			c.elems = append(c.elems, e)
+		}
+		peer.queue.outbound.c <- c
+	}
+	return true
+}
+
+// VerifAutodrainingQueues reports what rests in the autodraining queues of the
+// configured peers that are not running (running peers have consumers on these
+// queues; they are not touched): containers and elements, inbound and outbound.
+func (device *Device) VerifAutodrainingQueues() (inConts, inElems, outConts, outElems int) {
+	device.peers.RLock()
+	peers := make([]*Peer, 0, len(device.peers.keyMap))
+	for _, p := range device.peers.keyMap {
+		peers = append(peers, p)
+	}
+	device.peers.RUnlock()
+	for _, peer := range peers {
+		if peer.isRunning.Load() {
+			continue
+		}
+		var in []*QueueInboundElementsContainer
+	drainIn:
+		for {
+			select {
+			case c := <-peer.queue.inbound.c:
+				in = append(in, c)
+			default:
+				break drainIn
+			}
+		}
+		for _, c := range in {
+			if c != nil {
+				inConts++
+				inElems += len(c.elems)
+			}
+			peer.queue.inbound.c <- c
+		}
+		var out []*QueueOutboundElementsContainer
+	drainOut:
+		for {
+			select {
+			case c := <-peer.queue.outbound.c:
+				out = append(out, c)
+			default:
+				break drainOut
+			}
+		}
+		for _, c := range out {
+			if c != nil {
+				outConts++
+				outElems += len(c.elems)
+			}
+			peer.queue.outbound.c <- c
+		}
+	}
+	return
+}
